@@ -39,6 +39,8 @@ func checkC03(w *World, r *Report) {
 	var bodyCall *ssa.Call
 	var runner *ssa.Function
 	var defers []*ssa.Defer
+	var unguarded *ssa.Call
+	var unguardedFn *ssa.Function
 	for _, b := range m.EVAL.Blocks {
 		if !reg[b] {
 			continue
@@ -46,13 +48,19 @@ func checkC03(w *World, r *Report) {
 		for _, in := range b.Instrs {
 			switch x := in.(type) {
 			case *ssa.Call:
+				var fn *ssa.Function
 				if mc, ok := x.Call.Value.(*ssa.MakeClosure); ok {
-					fn := mc.Fn.(*ssa.Function)
+					fn = mc.Fn.(*ssa.Function)
+				} else if sc := x.Call.StaticCallee(); sc != nil {
+					if _, isHelper := m.helperSites[sc]; isHelper && callsFn(sc, m.doFn) {
+						fn = sc // the body runner as a function of the package
+					}
+				}
+				if fn != nil {
 					if _, isBarrier := w.barrierOf(fn); isBarrier {
 						bodyCall, runner = x, fn
-					} else if callsFn(fn, m.doFn) {
-						r.bad("C03.recover", m.EVAL, "try body runner", x.Pos(), "the closure that evaluates the try body does not start with a deferred recover handler")
-						bodyCall, runner = x, fn
+					} else if callsFn(fn, m.doFn) && unguarded == nil {
+						unguarded, unguardedFn = x, fn
 					}
 				}
 			case *ssa.Defer:
@@ -61,6 +69,10 @@ func checkC03(w *World, r *Report) {
 				}
 			}
 		}
+	}
+	if bodyCall == nil && unguarded != nil {
+		r.bad("C03.recover", m.EVAL, "try body runner", unguarded.Pos(), "the function that evaluates the try body does not start with a deferred recover handler")
+		bodyCall, runner = unguarded, unguardedFn
 	}
 	if bodyCall == nil {
 		r.undecided("C03.recover", m.EVAL, "try body runner", token.NoPos, "no closure call evaluating the try body found in the try region")
@@ -241,6 +253,7 @@ func checkC03(w *World, r *Report) {
 		// no argument: the closure must not read the scope cell at all (checked above) - otherwise nothing to add
 	}
 	ruleObject(m, r, e, reg)
+	tryShapeRule(m, r)
 	r.rule("C03.panic-conversion", "every adapter of the reflective binder starts with a deferred handler that calls recover() itself and converts the panic into an error that wraps the original (so a panicking builtin is delivered to catch like a returned error)")
 	nad := 0
 	extSig := w.ByPath[modPath+"/types"].Types.Scope().Lookup("ExternalCall").Type().Underlying().(*types.Signature)
@@ -336,10 +349,22 @@ func ruleObject(m *evalModel, r *Report, e *Engine, reg map[*ssa.BasicBlock]bool
 		if nl, ok := binds.Call.Args[2].(*ssa.Call); ok && nl.Call.StaticCallee() != nil && nl.Call.StaticCallee().Name() == "NewList" {
 			elems := sliceLiteralElems(nl.Call.Args[0])
 			if len(elems) == 1 {
+				// the choice is a two-way merge in EVAL, or the two returns of a function of the package given the error
+				var alts []ssa.Value
+				inFn := m.EVAL
 				if phi, ok := elems[0].(*ssa.Phi); ok && len(phi.Edges) == 2 {
+					alts = phi.Edges
+				} else if hc, ok := elems[0].(*ssa.Call); ok {
+					if h := hc.Call.StaticCallee(); h != nil && h.Pkg == m.EVAL.Pkg && h.Parent() == nil && len(hc.Call.Args) == 1 && isErrorType(hc.Call.Args[0].Type()) {
+						inFn = h
+						for _, rt := range m.returns(h) {
+							alts = append(alts, rt[1].(ssa.Value))
+						}
+					}
+				}
+				if len(alts) == 2 {
 					var hasEV, hasMsg bool
-					for i, op := range phi.Edges {
-						pred := phi.Block().Preds[i]
+					for _, op := range alts {
 						switch x := op.(type) {
 						case *ssa.Call:
 							if x.Call.IsInvoke() && x.Call.Method.Name() == "ErrorValue" {
@@ -347,7 +372,6 @@ func ruleObject(m *evalModel, r *Report, e *Engine, reg map[*ssa.BasicBlock]bool
 								if ex, ok := x.Call.Value.(*ssa.Extract); ok {
 									if ta, ok := ex.Tuple.(*ssa.TypeAssert); ok && ta.CommaOk {
 										hasEV = true
-										_ = pred
 									}
 								}
 							}
@@ -355,7 +379,7 @@ func ruleObject(m *evalModel, r *Report, e *Engine, reg map[*ssa.BasicBlock]bool
 							if c, ok := x.X.(*ssa.Call); ok && c.Call.IsInvoke() && c.Call.Method.Name() == "Error" {
 								// the message is used only when the error has no ErrorValue method: the block is
 								// entered exclusively through the not-ok edge of the comma-ok assertion
-								for _, d := range m.EVAL.Blocks {
+								for _, d := range inFn.Blocks {
 									iff := blockIf(d)
 									if iff == nil {
 										continue
@@ -693,11 +717,9 @@ func checkC12(w *World, r *Report) {
 		}
 	}
 	// no store to the scope cell between the loop header and the dispatch
-	if m.envCell != nil {
-		for _, st := range m.e.storesTo(m.envCell) {
-			if st.Parent() == m.EVAL && m.regionOf(st.Block()) == "" && m.header.Dominates(st.Block()) && !m.defaultRegion[st.Block()] {
-				r.bad("C12.caller-scope", m.EVAL, "scope changed before the dispatch", st.Pos(), "the expansion would be evaluated in another scope than the macro call")
-			}
+	for _, st := range m.scopeSwitches() {
+		if m.regionOf(st.block) == "" && m.header.Dominates(st.block) && !m.defaultRegion[st.block] {
+			r.bad("C12.caller-scope", m.EVAL, "scope changed before the dispatch", st.pos, "the expansion would be evaluated in another scope than the macro call")
 		}
 	}
 	r.floor("C12.caller-scope", "scope uses around expansion", n, 4)
@@ -831,6 +853,33 @@ func checkC12(w *World, r *Report) {
 	}
 	r.check(okApp, "C12.flag", m.EVAL, "application ignores the macro flag", token.NoPos, "no use of IsMacro/GetMacro", "function application depends on the macro flag")
 	ruleQQ(m, r, e)
+	r.rule("C12.lisp", "every defmacro in the embedded headers binds a (fn …) literal (so the defmacro region's function check is met by library code)")
+	if files, err := w.lispFiles(); err == nil {
+		nm := 0
+		for _, f := range files {
+			for _, form := range f.forms {
+				form.walk(func(s *sx) {
+					if s.head() != "defmacro" {
+						return
+					}
+					nm++
+					okFn := len(s.items) == 3 && s.items[1].kind == "sym" && s.items[2].head() == "fn"
+					st, detail := "discharged", "name and (fn …) literal"
+					if !okFn {
+						st, detail = "violated", "defmacro without a symbol name and a (fn …) literal value"
+					}
+					name := "?"
+					if len(s.items) > 1 {
+						name = s.items[1].text
+					}
+					r.addRaw("C12.lisp", f.path, "defmacro "+name, fmt.Sprintf("%s:%d", f.path, s.line), st, detail)
+				})
+			}
+		}
+		r.floor("C12.lisp", "defmacro forms in the embedded headers", nm, 8)
+	} else {
+		r.undecided("C12.lisp", nil, "lisp headers", token.NoPos, err.Error())
+	}
 	// the builtins the transform generates calls to must not write their arguments' storage: a template
 	// spliced twice must not influence itself (C02's ownership analysis restricted to those builtins)
 	r.rule("C12.splice-fresh", "the builtins the quasiquote transform generates calls to (cons, concat, vec) only write storage allocated in their own activation, so the elements of a spliced value are copied into the result and two expansions never share a tail")
@@ -1304,6 +1353,14 @@ func checkC18(w *World, r *Report) {
 				}
 			}
 			okArgs = ec.ast == formAtBottom && m.isCurrentScope(ec.env)
+			if m.envCell == nil && m.envPhi != nil {
+				// not spilled: exactly the value the next iteration would start from
+				for i, p := range m.header.Preds {
+					if p == guardBlock {
+						okArgs = ec.ast == formAtBottom && ec.env == m.envPhi.Edges[i]
+					}
+				}
+			}
 			if m.ctxCell != nil {
 				ld, ok := ec.ctx.(*ssa.UnOp)
 				okArgs = okArgs && ok && cellOf(ld.X) == m.ctxCell
@@ -1558,4 +1615,135 @@ func engineRule(w *World, r *Report, e *Engine) {
 		}
 	}
 	r.floor("C18.engine", "evaluating calls in package debugger", n, 1)
+}
+
+
+// tryShapeRule (C03.shape): the operands of the try form are split by its grammar
+//   (try body… )                         body = form[1:]
+//   (try body… (catch s h…))             body = form[1:len-1]  bind = last[1]     handler = last[2:]
+//   (try body… (finally f…))             body = form[1:len-1]  finally = last[1:]
+//   (try body… (catch s h…) (finally f…)) body = form[1:len-2]  bind = prelast[1]  handler = prelast[2:]  finally = last[1:]
+// Every list literal built in the try region from a slice of the form / of a clause must be one of
+// these, in the block where the corresponding clause tests hold.
+func tryShapeRule(m *evalModel, r *Report) {
+	r.rule("C03.shape", "the try form's operands are split by its grammar: the body is every operand before the trailing catch/finally clauses, the handler every operand of the catch clause after its symbol, the finally body every operand of the finally clause")
+	reg, ok := m.regions["try"]
+	if !ok {
+		return
+	}
+	form := canonForm(m)
+	if form == "" {
+		r.undecided("C03.shape", m.EVAL, "form", token.NoPos, "cannot name the dispatched form")
+		return
+	}
+	X := form + ".(types.List).Val"
+	last1 := X + "[len(" + X + ")-1]"
+	last2 := X + "[len(" + X + ")-2]"
+	lastAlt := []string{last1, X + "[1]", X + "[2]", "φ"} // `last`/`prelast` are phis over the length switch
+	_ = last2
+	want := map[string]bool{}
+	add := func(f string, args ...interface{}) { want[fmt.Sprintf(f, args...)] = true }
+	add("%s[1:]", X)
+	add("%s[1:len(%s)-1]", X, X)
+	add("%s[1:len(%s)-2]", X, X)
+	for _, l := range lastAlt {
+		add("%s.(types.List).Val[2:]", l)
+		add("%s.(types.List).Val[1:]", l)
+	}
+	n := 0
+	for _, b := range m.EVAL.Blocks {
+		if !reg[b] {
+			continue
+		}
+		for _, in := range b.Instrs {
+			sl, ok := in.(*ssa.Slice)
+			if !ok || !lispContainer(sl.X.Type()) {
+				continue
+			}
+			// only slices that become the Val of a list literal (the split), not argument lists
+			isSplit := false
+			for _, ref := range *sl.Referrers() {
+				if st, ok := ref.(*ssa.Store); ok {
+					if fa, ok := st.Addr.(*ssa.FieldAddr); ok && fieldName(fa.X.Type(), fa.Field) == "Val" {
+						isSplit = true
+					}
+				}
+			}
+			if !isSplit {
+				continue
+			}
+			n++
+			c := canonVal(m.e, sl)
+			// which clause tests hold here
+			hasCatch, hasFinally := false, false
+			for _, d := range m.EVAL.Blocks {
+				if iff := blockIf(d); iff != nil && reg[d] {
+					if _, s, ok := strEq(iff.Cond); ok && edgeDominates(d, 0, b) {
+						if s == "catch" {
+							hasCatch = true
+						}
+						if s == "finally" {
+							hasFinally = true
+						}
+					}
+				}
+			}
+			okShape := want[c]
+			detail := c
+			// the body slice must match the clauses present
+			if strings.HasPrefix(c, X+"[1:") {
+				switch {
+				case hasCatch && hasFinally:
+					okShape = c == fmt.Sprintf("%s[1:len(%s)-2]", X, X)
+				case hasCatch || hasFinally:
+					okShape = c == fmt.Sprintf("%s[1:len(%s)-1]", X, X)
+				default:
+					okShape = c == X+"[1:]"
+				}
+				detail += fmt.Sprintf(" (catch clause: %v, finally clause: %v)", hasCatch, hasFinally)
+			}
+			r.check(okShape, "C03.shape", m.EVAL, "operands taken for a part of the try form: "+nz(m.w.srcExpr(sl), c), sl.Pos(), detail, "the slice "+detail+" does not match the grammar of the try form: a body form, the catch symbol or a handler form is dropped or misplaced")
+		}
+	}
+	r.floor("C03.shape", "operand splits of the try form", n, 6)
+}
+
+// canonForm: canonical rendering of the dispatched form (the value whose head feeds the dispatch).
+func canonForm(m *evalModel) string {
+	var find func(v ssa.Value, depth int) ssa.Value
+	find = func(v ssa.Value, depth int) ssa.Value {
+		if depth > 8 {
+			return nil
+		}
+		switch x := v.(type) {
+		case *ssa.Phi:
+			for _, op := range x.Edges {
+				if s := find(op, depth+1); s != nil {
+					return s
+				}
+			}
+		case *ssa.Field:
+			return find(x.X, depth+1)
+		case *ssa.TypeAssert:
+			// a0.(Symbol): a0 = *(&form.(List).Val[0])
+			if ld, ok := x.X.(*ssa.UnOp); ok {
+				if ia, ok := ld.X.(*ssa.IndexAddr); ok {
+					if f, ok := ia.X.(*ssa.Field); ok {
+						if ta, ok := f.X.(*ssa.TypeAssert); ok {
+							return ta.X
+						}
+					}
+				}
+			}
+		case *ssa.Extract:
+			if ta, ok := x.Tuple.(*ssa.TypeAssert); ok {
+				return find(ta, depth+1)
+			}
+		}
+		return nil
+	}
+	if v := find(m.dispatch, 0); v != nil {
+		return canonVal(m.e, v)
+	}
+	return ""
 }
